@@ -109,6 +109,45 @@ def concurrent_leg(c, scripts, max_preemptions, max_runs, kind='line-schedule'):
             return
 
 
+def mixed_locations_leg(c):
+    """Always replayed (the sampled behaviours reach it only with some seeds): a method registration and a line registration
+    of the same file, then the method one is unregistered - the handler ends up with exactly the line one, also after a
+    service update on top."""
+    sysm = D.SyncSystem()
+
+    def drain():
+        while sysm.pool.queue:
+            sysm.pool.take('W1')
+            sysm.pool.apply('W1')
+    # (None = the background tasks run now; two calls without one in between are applied together, so the handler goes
+    #  from [method registration] to [line registration] in ONE update - lists of equal length)
+    # (in both directions: method -> line, line -> method)
+    steps = [('Register', ('M1',)), None, ('Unregister', (1,)), ('Register', ('L1',)), None,
+             ('Unregister', (2,)), ('Register', ('M1',)), None,
+             ('Register', ('L1',)), None, ('Unregister', (3,)), None, ('SvcChange', ()), ('PollAnswer', ('update',)), None]
+    want = {1: [1], 4: [2], 7: [3], 9: [3, 4], 11: [4], 14: [4]}
+    for i, step in enumerate(steps):
+        try:
+            if step is None:
+                drain()
+            else:
+                sysm.do(step[0], step[1])
+        except BaseException as ex:
+            p_ = c.save_replay({'kind': 'mixed-locations', 'step': i, 'raised': repr(ex)})
+            c.violation('method and line registrations of one file: step %d (%s) raised %r' % (i, step, ex), p_)
+            return
+        if i in want:
+            got = sorted(sysm.project()['installed']['regs'])
+            c.traces_validated += 1
+            c.note_case(key=('mixed-locations', i), nontrivial=True)
+            if got != want[i]:
+                p_ = c.save_replay({'kind': 'mixed-locations', 'steps': [list(x) if x else None for x in steps[:i + 1]],
+                                    'installed': got, 'expected': want[i]})
+                c.violation('method and line registrations of one file: after %s the handler acts on registrations %s, '
+                            'expected %s' % ([x for x in steps[:i + 1] if x], got, want[i]), p_)
+                return
+
+
 def timer_survives(c):
     """A failing / unintelligible poll leaves polling running (RepeatedTimer + LongPoll.start with a tiny interval)."""
     sysm = D.SyncSystem()
@@ -174,6 +213,7 @@ def run(c):
     import random
     from .. import e2e_leg
     e2e_leg.e2e_leg(c, random.Random(c.seed + 21), 8 if quick else 120)
+    mixed_locations_leg(c)
     e2e_leg.two_lives_leg(c)
     e2e_leg.two_lives_leg(c, same_object=True)
     e2e_leg.two_lives_leg(c, same_object=True, register=False)
